@@ -25,6 +25,7 @@ PROPS = {
         'covers': {'c04::h_any': ['compiles', 'rejected', 'matched'], 'c04::h_skeletons': ['compiles', 'matched', 'several-expansions']},
     },
     'C05': {
+        'assumptions': ['glob::Pattern::{new,matches} (glob 0.3.1, default MatchOptions) is a Python transcription (stub of a dependency); every sampled path witness is re-run against the real crate'],
         'harnesses': ['c05::h_inert', 'c05::h_glob'],
         'covers': {'c05::h_inert': ['matched', 'kind-alt', 'kind-dewey', 'kind-glob', 'kind-simple'],
                    'c05::h_glob': ['malformed', 'glob-matched', 'plain-matched']},
@@ -42,6 +43,7 @@ PROPS = {
         'covers': {'c15::h_files': ['some-file', 'ignored-file']},
     },
     'C07': {
+        'assumptions': ['HashMap iteration order is modelled as one of three orders (insertion, reverse, rotation) chosen nondeterministically', 'values contain no CR/LF (excluded by the property)'],
         'harnesses': ['c07::h_roundtrip'],
         'covers': {'c07::h_roundtrip': ['parsed-back']},
     },
@@ -67,25 +69,30 @@ PROPS = {
                    'c19::h_depend': ['accepted', 'rejected']},
     },
     'C16': {
+        'assumptions': ['serde plumbing (StrDeserializer, deserialize_str -> visit_str, de::Error::custom / missing_field) is modelled as the direct call it is', 'BufRead::lines modelled per its documented contract on top of fill_buf/consume'],
         'harnesses': ['c16::h_records', 'c16::h_io_error'],
         'covers': {'c16::h_records': ['ok-two-records', 'rejected'], 'c16::h_io_error': ['error-injected', 'no-error']},
     },
     'C12': {
+        'assumptions': ['file system = in-memory stub (File::open, metadata().len(), Read for File); real kernel behaviour (permissions, symlinks, races) is outside the claim', 'digests are uninterpreted functions per algorithm and input length, assumed collision-free on the inputs of a path; that they are the standard algorithms rests on the RustCrypto crates (C13 h_vectors cross-checks OpenSSL vectors)'],
         'harnesses': ['c12::h_verify', 'c12::h_find'],
         'covers': {'c12::h_verify': ['size-ok', 'size-mismatch', 'checksum-ok', 'checksum-mismatch'],
                    'c12::h_find': ['found', 'not-found']},
     },
     'C13': {
-        'harnesses': ['c13::h_file', 'c13::h_file_algs', 'c13::h_str', 'c13::h_patch', 'c13::h_patch_algs', 'c13::h_names'],
+        'assumptions': ['digests are uninterpreted functions per algorithm and input length, assumed collision-free on the inputs of a path; natively sym::digest_hex calls the RustCrypto hashers directly', 'readers follow the std::io::Read contract: they return at most buf.len() bytes; io::copy / BufReader / read_until are modelled per their documented contract (retry on Interrupted, propagate other errors, stop at Ok(0))'],
+        'harnesses': ['c13::h_file', 'c13::h_file_algs', 'c13::h_str', 'c13::h_patch', 'c13::h_patch_algs', 'c13::h_names', 'c13::h_vectors'],
         'covers': {'c13::h_file': ['hard-error', 'hashed'], 'c13::h_str': ['hashed'], 'c13::h_patch': ['line-removed'],
-                   'c13::h_names': ['parsed', 'rejected']},
+                   'c13::h_names': ['parsed', 'rejected'], 'c13::h_vectors': ['vector']},
     },
     'C20': {
+        'assumptions': ['file system = in-memory stub (is_dir / is_file / exists / read_dir in every order / read_to_string); real kernel behaviour is outside the claim'],
         'harnesses': ['c20::h_iterate', 'c20::h_filenames', 'c20::h_is_valid'],
         'covers': {'c20::h_iterate': ['two-packages', 'optional-file-read'], 'c20::h_filenames': ['known', 'unknown'],
                    'c20::h_is_valid': ['valid']},
     },
     'C17': {
+        'assumptions': ["'promptly' is claimed only as: every path terminates within the interpreter's step cap (3M MIR steps)", 'file-system and reader stubs as in C20 / C13'],
         'harnesses': ['c17::h_pattern', 'c17::h_pattern_tokens', 'c17::h_names', 'c17::h_revision_digits', 'c17::h_summary_text', 'c17::h_summary_stream', 'c17::h_bytes_parsers', 'c17::h_distinfo_line', 'c17::h_plist_line', 'c17::h_scanindex', 'c17::h_metadata', 'c17::h_pkgdb', 'c17::h_summary_calls'],
         'covers': {'c17::h_pkgdb': ['package-listed']},
         'max_paths': {'quick': 400000, 'thorough': 3000000},
